@@ -115,6 +115,8 @@ def body(led):
     axial_load(led)
     from . import c18_fext, c18_partition
     c18_fext.check(led)
+    from . import c18_fext_any
+    c18_fext_any.check(led)
     c18_partition.check(led)
     ok, _ = K.compare(real('H'), real('H') * shims.sym_cos(real('a')))
     led.canary('H == H*cos(a)', not ok)
